@@ -99,3 +99,61 @@ Fixpoint rqv_run (s : rqv_state) (ops : list auth_op) : list (option bytes) :=
       | None => sv_client s :: rqv_run (mkRqv (sv_client s) (sv_client s) (sv_client s)) r
       end
   end.
+
+(* ---------- several clients: Client.Clone and credential setters on either ---------- *)
+
+(* Client.Headers is a map the client owns; Transport.Clone gives the clone a COPY.  Clients are
+   numbered in order of creation (0 = the first one); [heap] holds the Authorization entry of
+   every header map ever allocated, [owner i] = the map client i uses. *)
+Inductive cl_op :=
+| KBasic (i : nat) (u p : bytes)   (* client i: SetCommonBasicAuth *)
+| KBearer (i : nat) (t : bytes)    (* client i: SetCommonBearerAuthToken *)
+| KClone (i : nat)                 (* a new client := client i .Clone() *)
+| KSend (i : nat).                 (* client i sends a fresh request *)
+
+Record cl_state := mkCl { cl_heap : list (option bytes); cl_owner : list nat }.
+Definition cl_init : cl_state := mkCl [None] [0].
+
+Fixpoint set_nth {A} (n : nat) (x : A) (l : list A) : list A :=
+  match l, n with
+  | [], _ => []
+  | _ :: r, O => x :: r
+  | y :: r, S m => y :: set_nth m x r
+  end.
+
+Definition cl_get (s : cl_state) (i : nat) : option bytes := nth (nth i (cl_owner s) 0) (cl_heap s) None.
+Definition cl_set (s : cl_state) (i : nat) (h : bytes) : cl_state :=
+  mkCl (set_nth (nth i (cl_owner s) 0) (Some h) (cl_heap s)) (cl_owner s).
+
+(* [share]: false = the code (the clone's map is a new copy); true = a seeded change (same map) *)
+Definition cl_clone (share : bool) (s : cl_state) (i : nat) : cl_state :=
+  if share then mkCl (cl_heap s) (cl_owner s ++ [nth i (cl_owner s) 0])
+  else mkCl (cl_heap s ++ [cl_get s i]) (cl_owner s ++ [length (cl_heap s)]).
+
+Fixpoint cl_run_with (share : bool) (s : cl_state) (ops : list cl_op) : list (option bytes) :=
+  match ops with
+  | [] => []
+  | KBasic i u p :: r => cl_run_with share (cl_set s i (basic_header u p)) r
+  | KBearer i t :: r => cl_run_with share (cl_set s i (bearer_header t)) r
+  | KClone i :: r => cl_run_with share (cl_clone share s i) r
+  | KSend i :: r => cl_get s i :: cl_run_with share s r
+  end.
+Definition cl_run := cl_run_with false.
+
+(* what must be transmitted: each client has its own credential; a clone starts with a copy *)
+Fixpoint cls_run (creds : list (option bytes)) (ops : list cl_op) : list (option bytes) :=
+  match ops with
+  | [] => []
+  | KBasic i u p :: r => cls_run (set_nth i (Some (basic_header u p)) creds) r
+  | KBearer i t :: r => cls_run (set_nth i (Some (bearer_header t)) creds) r
+  | KClone i :: r => cls_run (creds ++ [nth i creds None]) r
+  | KSend i :: r => nth i creds None :: cls_run creds r
+  end.
+
+(* every client index an operation names exists at that point *)
+Fixpoint ops_ok (n : nat) (ops : list cl_op) : bool :=
+  match ops with
+  | [] => true
+  | KBasic i _ _ :: r | KBearer i _ :: r | KSend i :: r => Nat.ltb i n && ops_ok n r
+  | KClone i :: r => Nat.ltb i n && ops_ok (S n) r
+  end.
